@@ -756,7 +756,8 @@ def prove_deref(prog, s, ctx, R):
                     return 'unproved', None, 'allocation size %s is not a constant' % P.show(sp)
                 vals = CR.member_values(prog, inner['fclass'], mm.group(1))
                 if not vals or any(v[0] != 'const' for v in vals):
-                    return 'unproved', None, 'allocation size depends on %s' % mm.group(1)
+                    # e.g. a default member initialiser instead of constructor initialisers: the value is not read here
+                    return 'undecided', None, 'allocation size depends on %s, whose value the rule cannot read as a constant set by every constructor [shape not read by the rule]' % mm.group(1)
                 val += coef * min(v[1] for v in vals)
             if val < tw:
                 return 'unproved', None, 'buffer of %d bytes read as %d bytes' % (val, tw)
